@@ -139,26 +139,27 @@ type sigAgg struct {
 }
 
 type Report struct {
-	Prop      string
-	Tier      string
-	Seed      int64
-	Level     string
-	Start     time.Time
-	Cases     int64
-	Evals     int64
-	NonTriv   int64
-	Distinct  map[string]struct{}
-	Samples   []interface{}
-	sigs      map[string]*sigAgg
-	findings  []Finding
-	TLC       []*TLCStats
-	Extra     map[string]interface{}
-	Assume    []string
-	Masked    map[string]int64
-	Traces    int64
-	Rule      string
-	Exhaust   bool
-	maxSample int
+	Prop       string
+	Tier       string
+	Seed       int64
+	Level      string
+	Start      time.Time
+	Cases      int64
+	Evals      int64
+	NonTriv    int64
+	Distinct   map[string]struct{}
+	Samples    []interface{}
+	sigs       map[string]*sigAgg
+	findings   []Finding
+	TLC        []*TLCStats
+	Extra      map[string]interface{}
+	Assume     []string
+	Masked     map[string]int64
+	Traces     int64
+	Rule       string
+	Exhaust    bool
+	maxSample  int
+	NoteCounts map[string]int64
 }
 
 func NewReport(prop, tier string, seed int64, level string) *Report {
@@ -169,7 +170,7 @@ func NewReport(prop, tier string, seed int64, level string) *Report {
 		}
 	}
 	return &Report{Prop: prop, Tier: tier, Seed: seed, Level: level, Start: time.Now(), Distinct: map[string]struct{}{},
-		sigs: map[string]*sigAgg{}, findings: fs, Extra: map[string]interface{}{}, Masked: map[string]int64{}, maxSample: 6}
+		sigs: map[string]*sigAgg{}, findings: fs, Extra: map[string]interface{}{}, Masked: map[string]int64{}, maxSample: 6, NoteCounts: map[string]int64{}}
 }
 
 func (r *Report) Add(c []byte, o *Obs) {
@@ -187,6 +188,9 @@ func (r *Report) Add(c []byte, o *Obs) {
 	}
 	if o.Sample != "" && len(r.Samples) < r.maxSample && (r.Cases%97 == 1 || r.Cases < 3) {
 		r.Samples = append(r.Samples, o.Sample)
+	}
+	for _, n := range o.Notes {
+		r.NoteCounts[n]++
 	}
 	for _, f := range o.Fails {
 		k := f.Sig.Key()
@@ -339,6 +343,9 @@ func (r *Report) writeEvidence(violations int) {
 	cov["tlc_cmds"] = cmds
 	if len(zero) > 0 {
 		cov["tlc_actions_never_taken"] = zero
+	}
+	if len(r.NoteCounts) > 0 {
+		cov["notes"] = r.NoteCounts
 	}
 	if len(r.Masked) > 0 {
 		cov["masked_by_known_findings"] = r.Masked
